@@ -518,16 +518,7 @@ func C14(c *fw.Ctx) {
 			if s == 0 {
 				// cycles whose second copy runs into something else before it gets to its INCLUDE again: the copy stands inside the
 				// explicit context the first one has left open (D79)
-				for ci, fs := range []map[string]string{
-					{"root.jst": "JSIGHT 0.3\nINCLUDE a.jst\n", "a.jst": "URL /a\n(\n  GET\n  INCLUDE a.jst\n)\n"},
-					{"root.jst": "JSIGHT 0.3\nINCLUDE a.jst\n", "a.jst": "INFO\n(\n  Title \"t\"\n  Version 1\n  INCLUDE a.jst\n)\n"},
-					{"root.jst": "JSIGHT 0.3\nINCLUDE a.jst\n", "a.jst": "GET /a\n(\n  200 any\n  Description\n    x\n  INCLUDE a.jst\n)\n"},
-					{"root.jst": "JSIGHT 0.3\nINCLUDE a.jst\n", "a.jst": "URL /a\n(\n  GET\n  INCLUDE b.jst\n)\n", "b.jst": "  200 any\n  INCLUDE a.jst\n"},
-					{"root.jst": "JSIGHT 0.3\nURL /r\n(\n  INCLUDE a.jst\n)\n", "a.jst": "GET\n  200 any\nTAG @t\nINCLUDE a.jst\n"},
-					{"root.jst": "JSIGHT 0.3\nINCLUDE a.jst\n", "a.jst": "SERVER @s\n(\n  BaseUrl \"http://x\"\n  INCLUDE sub/b.jst\n)\n", "sub/b.jst": "# b\nINCLUDE c.jst\n", "sub/c.jst": "INCLUDE b.jst\n"},
-					{"root.jst": "JSIGHT 0.3\nINCLUDE a.jst\n", "a.jst": "MACRO @m\n(\n  200 any\n  INCLUDE a.jst\n)\n"},
-					{"root.jst": "JSIGHT 0.3\nINCLUDE a.jst\n", "a.jst": "TYPE @t\n  {}\nURL /a\n(\n  GET\n  (\n    INCLUDE a.jst\n  )\n)\n"},
-				} {
+				for ci, fs := range cycleInContextProjects() {
 					files := map[string][]byte{}
 					for k, v := range fs {
 						files[k] = []byte(v)
